@@ -85,7 +85,11 @@ func genC18(seed uint64, tier string) *plan.Plan {
 			}
 		}
 		op := plan.Op{K: "session", A: kind, B: proto, C: cert, D: d, N: []int64{sn, cli, int64(r.IntN(2)), int64(1 + r.IntN(3)), host}}
-		if !reuse && r.IntN(4) == 0 {
+		if !reuse && r.IntN(12) == 0 {
+			// a collector whose client-CA setting holds no usable certificate, started more than once
+			op.A, op.B = 5, 0
+			op.N[4] = 0
+		} else if !reuse && r.IntN(4) == 0 {
 			// one long-lived TLS collector, 2-3 exporting processes of the same application one after
 			// the other, each with its own configuration (CA, expected name, client certificate); the
 			// clock may move on between them
@@ -250,6 +254,8 @@ func runC18(pl *plan.Plan, out *plan.Outcome) {
 				c18PlaintextSender(env, where, addr, proto, z, uint32(900+si))
 			case 3:
 				c18PlaintextListener(env, where, addr, proto, ein)
+			case 5:
+				c18UnusableClientCA(env, where, addr, z, ein, uint32(900+si), int(n[3]))
 			case 4:
 				c18SharedCollector(env, where, addr, srvCerts[cert], cert, cliCA, day, v6, z, ein, op.F, uint32(900+si), cliCerts)
 			}
@@ -413,6 +419,85 @@ func c18RealCollector(env *Env, where, addr string, proto int, srv certPair, cli
 		env.Violate("valid-session-refused", []string{"tls", "dtls"}[proto], "%s: every certificate is acceptable, but InitExportingProcess failed: %v", where, ierr)
 	case e.mustEstablish && mine != sent:
 		env.Violate("valid-session-lost-messages", []string{"tls", "dtls"}[proto], "%s: %d messages sent over the established session, %d delivered", where, sent, mine)
+	}
+}
+
+// c18UnusableClientCA: the collector is configured to authenticate exporters (a client CA is set)
+// but the setting holds no usable certificate. Such a collector cannot authenticate anybody, so
+// whatever the application does with it - here: Start, which fails, and Start again - it must not
+// deliver messages from any exporter.
+func c18UnusableClientCA(env *Env, where, addr string, z *zoo, ein exporter.ExporterInput, domain uint32, variant int) {
+	bad := [][]byte{{}, []byte("-----BEGIN CERTIFICATE-----\nMIIB\n-----END CERTIFICATE-----\n"), []byte("not a certificate")}[variant%3]
+	cin := collector.CollectorInput{Address: addr, Protocol: "tcp", MaxBufferSize: 65535, IsEncrypted: true,
+		ServerCert: z.SrvGood.CertPEM, ServerKey: z.SrvGood.KeyPEM, CACert: bad, TemplateTTL: 7200}
+	cp, err := collector.InitCollectingProcess(cin)
+	if err != nil {
+		env.Count("c18.unusable_client_ca_refused_at_init", 1)
+		return
+	}
+	env.Count("fault.collector_started_twice_with_unusable_client_ca", 1)
+	var got []dMsg
+	consumed := make(chan struct{})
+	env.Go("consumer", func() {
+		defer close(consumed)
+		for {
+			var msg *entities.Message
+			var ok bool
+			Block("consume", func() { msg, ok = <-cp.GetMsgChan() })
+			if !ok {
+				return
+			}
+			got = append(got, captureMsg(msg))
+		}
+	})
+	for i := 0; i < 2+variant%2; i++ {
+		done := make(chan struct{})
+		env.Go("collector-start", func() {
+			defer close(done)
+			cp.Start()
+		})
+		waitOrTimeout(done, time.Second)
+	}
+	cfg := *ein.TLSClientConfig
+	cfg.ServerName = serverDNSName
+	cfg.CAData = z.CA.PEM
+	in := ein
+	in.TLSClientConfig = &cfg
+	in.ObservationDomainID = domain
+	var ep *exporter.ExportingProcess
+	var ierr error
+	inited := make(chan struct{})
+	env.Go("exporter-init", func() {
+		defer close(inited)
+		Block("init", func() { ep, ierr = exporter.InitExportingProcess(in) })
+	})
+	if !waitOrTimeout(inited, 10*time.Minute) {
+		ierr = fmt.Errorf("InitExportingProcess did not return")
+	}
+	sent := 0
+	if ierr == nil && ep != nil {
+		sent = c18SendSome(ep)
+		env.Sleep(2 * time.Second)
+		Block("close", func() { ep.CloseConnToCollector() })
+	}
+	env.Sleep(time.Second)
+	stopped := make(chan struct{})
+	env.Go("stopper", func() {
+		defer close(stopped)
+		Block("stop", func() { cp.Stop() })
+	})
+	waitOrTimeout(stopped, 2*time.Minute)
+	cp.CloseMsgChan()
+	waitOrTimeout(consumed, time.Second)
+	mine := 0
+	for _, d := range got {
+		if d.Domain == domain {
+			mine++
+		}
+	}
+	env.Logf("%s -> unusable client CA: init err=%v sent=%d delivered=%d", where, ierr != nil, sent, mine)
+	if mine > 0 {
+		env.Violate("delivered-from-unauthenticated-exporter", "unusable-client-ca", "%s: the collector is configured with a client CA that holds no usable certificate (it can authenticate nobody) and was started more than once; it delivered %d messages from an exporter", where, mine)
 	}
 }
 
